@@ -131,6 +131,9 @@ enum HBody {
     NotLt(u32),
     /// calls helper `to` with `x + add`
     Chain { to: usize, add: u32 },
+    /// member of a group of mutually recursive helpers: below `limit` it calls the next member
+    /// of the cycle (`peer`, a helper declared before or AFTER it) with `x + step`
+    Rec { peer: usize, limit: u32, step: u32 },
 }
 
 #[derive(Clone, Debug)]
@@ -301,6 +304,13 @@ impl Model<'_> {
             HBody::Even => x % 2 == 0,
             HBody::NotLt(c) => !(x < c),
             HBody::Chain { to, add } => self.helper(to, x + add),
+            HBody::Rec { peer, limit, step } => {
+                if x >= limit {
+                    x % 2 == 0
+                } else {
+                    self.helper(peer, x + step)
+                }
+            }
         }
     }
     fn coll(&mut self, c: usize) -> Option<bool> {
@@ -533,6 +543,33 @@ fn gen_pkg(rng: &mut Rng, mode: Mode) -> Pkg {
         };
         let marker = g.marker();
         pkg.helpers.push(Helper { name: format!("h{}", i + 1), module, marker, body });
+    }
+    // a group of 2-3 mutually recursive helpers (one strongly connected component of the call
+    // graph): tests, entry functions and other helpers call any member of it, not only the one
+    // a traversal happens to enter first
+    if g.rng.chance(1, 3) {
+        let size = 2 + g.rng.usize(2);
+        let first = pkg.helpers.len();
+        let same_module = g.rng.chance(2, 3);
+        let home = g.rng.usize(n_mods);
+        for j in 0..size {
+            let module = if same_module { home } else { g.rng.usize(n_mods) };
+            let peer = first + (j + 1) % size;
+            let marker = g.marker();
+            pkg.helpers.push(Helper {
+                name: format!("r{}", j + 1),
+                module,
+                marker,
+                body: HBody::Rec { peer, limit: 2 + g.rng.below(6) as u32, step: 1 + g.rng.below(3) as u32 },
+            });
+        }
+        for j in 0..size {
+            let (me, peer) = (first + j, first + (j + 1) % size);
+            if pkg.helpers[peer].module != pkg.helpers[me].module {
+                let m = pkg.helpers[me].module;
+                pkg.imports[m].insert(peer);
+            }
+        }
     }
 
     let has_main = g.rng.chance(3, 4);
@@ -916,6 +953,9 @@ fn module_src(pkg: &Pkg, module: usize) -> String {
             HBody::Even => "x % 2 == 0".to_string(),
             HBody::NotLt(c) => format!("!(x < {c})"),
             HBody::Chain { to, add } => format!("{}(x + {add})", pkg.helpers[to].name),
+            HBody::Rec { peer, limit, step } => {
+                format!("if x >= {limit} {{ x % 2 == 0 }} else {{ {}(x + {step}) }}", pkg.helpers[peer].name)
+            }
         };
         items.push(format!("fn {}(x: u32) -> bool {{\n    {}\n    {expr}\n}}\n", h.name, mark_src(pkg.mode, h.marker)));
     }
